@@ -904,6 +904,47 @@ func (e *EvalEnv) call(x *ast.CallExpr) (Val, error) {
 		}
 		e.X.C.usesQuant = true
 		return TV{T: Raw(SBool, q), Typ: types.Typ[types.Bool]}, nil
+	case "all", "any":
+		// all(x, uint64, body): universally quantified ghost integer of the given width
+		if len(x.Args) != 3 {
+			return nil, fmt.Errorf("%s(x, type, body)", id.Name)
+		}
+		vid, ok := x.Args[0].(*ast.Ident)
+		tid, ok2 := x.Args[1].(*ast.Ident)
+		if !ok || !ok2 {
+			return nil, fmt.Errorf("%s(x, type, body): identifiers expected", id.Name)
+		}
+		cw, ok := convWidths[tid.Name]
+		if !ok {
+			return nil, fmt.Errorf("unknown integer type %s", tid.Name)
+		}
+		var typ types.Type
+		if obj := types.Universe.Lookup(tid.Name); obj != nil {
+			typ = obj.Type()
+		} else {
+			typ = &WideInt{Bits: cw.w, Signed: cw.s}
+		}
+		e.X.C.nameCtr++
+		bn := fmt.Sprintf("%s!g%d", sanitize(vid.Name), e.X.C.nameCtr)
+		saved, had := e.Vars[vid.Name]
+		e.Vars[vid.Name] = TV{T: Raw(SBV(cw.w), bn), Typ: typ}
+		e.X.C.noName++
+		body, err := e.Bool(x.Args[2])
+		e.X.C.noName--
+		if had {
+			e.Vars[vid.Name] = saved
+		} else {
+			delete(e.Vars, vid.Name)
+		}
+		if err != nil {
+			return nil, err
+		}
+		q := "forall"
+		if id.Name == "any" {
+			q = "exists"
+		}
+		e.X.C.usesQuant = true
+		return TV{T: Raw(SBool, fmt.Sprintf("(%s ((%s (_ BitVec %d))) %s)", q, bn, cw.w, body.S)), Typ: types.Typ[types.Bool]}, nil
 	case "fresh":
 		// fresh(s): slice/pointer/map allocated during the call
 		v, err := e.Eval(x.Args[0])
